@@ -259,6 +259,12 @@ static int run(int argc, char ** argv)
       e.num("dst", dst).num("src", src).dbl("ta", ta).dbl("tb", tb).num("loc", loc ? 1 : 0);
       add_rep(e, c.regs[dst]);
       c.sink.emit(e);
+    } else if (op == "mklocal") {
+      c.regs[dst].make_local();
+      auto e = c.ev("mklocal");
+      e.num("dst", dst);
+      add_rep(e, c.regs[dst]);
+      c.sink.emit(e);
     } else if (op == "eval") {
       // eval src  t
       const double t = need(0).at(0);
